@@ -13,6 +13,9 @@ def reason(k):
     if k.startswith('C13.D') and 'timeToBucketID' in k:
         return ("the divisor is the configured bucket_interval (bucketsMeta.interval is set once by newBucketsMeta from limiterConfig.bucketInterval = config.BucketInterval_); "
                 "Start ends the process unless it is > 0 (checked invariant C13.I rejects-non-positive|BucketInterval_; before fix F11 \"0s\" was accepted and the first event divided by zero)")
+    if k.startswith('C13.B') and 'template.containsCall' in k and 's[left]' in k.replace('[:LastIndexByte(s, 41)]', ''):
+        return ("left starts at right = i-1 with i >= 0 (LastIndexByte found), and the scanning loop decrements it only while left >= 0, so left >= -1 after the loop; "
+                "the two early returns exclude left == right and left == -1, hence 0 <= left <= right < len(s) at s[left] (descending-counter invariant plus a disequality, outside the prover's domain)")
     if k.startswith('C13.B'):
         if 'RegexFilter).Apply' in k:
             return ("indexes come from regexp.FindAllSubmatchIndex: each entry has 2*(NumSubexp+1) elements and the group list kept by the filter is the RESULT of cfg.VerifyGroupNumbers "
